@@ -811,9 +811,12 @@ def model_correspondence(rep, drv, paths, arena):
                 okc = False
         if not okc:
             continue
-        reqs = ["confine.subn %s %s" % (hxlist(subs), hx(p)) for p in paths]
+        # as coded: the parent's invalid characters ("\0" for MemoryFS, OSFS and a SubFS of them) are
+        # refused before normpath could remove them (FsModel.Confine.nestedDelegateChk)
+        subp = list(paths) + [q for q in extra_paths if len(q) < 3000]
+        reqs = ["confine.subnc %s %s %s" % (hx("\0"), hxlist(subs), hx(p)) for p in subp]
         out = drv.batch(reqs)
-        for p, m in zip(paths, out):
+        for p, m in zip(subp, out):
             rep.evaluations += 1
 
             def deleg():
